@@ -2,8 +2,10 @@
    Only statements here; proofs live in Media/Proofs.v.  Model: Media/Model.v.
    The model is run per media type k (0 = js, k > 0 = a CSS medium); `flatten` / `eager` select the variant:
    current_flatten = false, current_eager = true describe /repo's code as it is (after commits a5a18f6, 488c746).
-   The two defects of the code before those commits are machine-checked lemmas in Media/History.v. *)
+   The two defects of the code before those commits are machine-checked lemmas in Media/History.v.
+   Source anchors (generated constants of component_media.py, `Example ..._anchor ... reflexivity`): Media/Anchors.v. *)
 From DJC Require Import Lib.Base Media.Model Media.Proofs Media.Complete Media.History.
+From DJC Require Import Media.Names Media.Forms Media.Dups Media.Mixins Media.Anchors.
 
 (* Files: for every table, class, media type and BOTH variants, `Cls.media` holds each file once, and holds
    exactly the files declared by the class itself and, transitively, by the bases selected by Media.extend. *)
@@ -72,6 +74,58 @@ Theorem both_members_rejected : forall t i cl p,
 Proof. exact both_rejected. Qed.
 Print Assumptions both_members_rejected.
 
+(* Order with DUPLICATES inside declared lists (generalises order_consistent; a duplicate-free list is its own squash):
+   adjacent repeats are harmless - if the declared lists with adjacent repeats squashed are all subsequences of one
+   duplicate-free list, each squashed list is a subsequence of the result.  A repeat that is not adjacent makes the
+   premise false (wconsistent_needs_no_distant_repeat): Django warns and falls back to first-occurrence order
+   (Dups.dup_nonadjacent_warns, Dups.dup_nonadjacent_breaks_other); the file-set theorem still applies. *)
+Theorem order_consistent_with_duplicates : forall t k c,
+  wconsistent (map (declared current_eager t k) (contributors t c)) ->
+  forall d, In d (contributors t c) ->
+  subseqb (squash (declared current_eager t k d)) (observe (spec current_flatten current_eager t k c)) = true.
+Proof. exact (order_consistent_dups current_eager). Qed.
+Print Assumptions order_consistent_with_duplicates.
+
+Theorem wconsistent_needs_no_distant_repeat : forall ls, wconsistent ls -> forall l, In l ls -> NoDup (squash l).
+Proof. exact wconsistent_squash_NoDup. Qed.
+Print Assumptions wconsistent_needs_no_distant_repeat.
+
+(* Forms of Media.js / Media.css in a component's class body (str / bytes / list / tuple / dict): every EMPTY value of
+   the str / list forms (absent or None, empty str / bytes, empty list / tuple) declares no file for any medium ... *)
+Theorem empty_forms_declare_nothing : forall c e j r k,
+  r = RAbsent \/ r = RStr None \/ r = RList [] ->
+  raw_decl k c (RawMedia e j (CFiles r)) = (if N.eqb k 0 then norm_files j else []) /\
+  raw_decl 0 c (RawMedia e r (CFiles j)) = [].
+Proof. exact empty_forms_nothing. Qed.
+Print Assumptions empty_forms_declare_nothing.
+
+(* ... and the four ways of writing one css file for all media declare the same thing. *)
+Theorem css_forms_agree : forall c e j f k,
+  let d css := raw_decl k c (RawMedia e j css) in
+  d (CFiles (RStr (Some f))) = d (CFiles (RList [f])) /\
+  d (CFiles (RList [f])) = d (CDict [(css_all, DStr f)]) /\
+  d (CDict [(css_all, DStr f)]) = d (CDict [(css_all, DList [f])]).
+Proof. exact css_forms_equivalent. Qed.
+Print Assumptions css_forms_agree.
+
+(* Plain (non-component) classes in the MRO.  PARTIAL: the literal reading "nearest class of ANY kind that defines
+   either member" is proved only under the premise that no plain class of the MRO defines a member of the pair
+   (then the code's choice, nearest_defining over component classes, is that class) ... *)
+Theorem attr_nearest_any_class_partial : forall t c p fm m,
+  mro_of t c = Some m -> (forall b, In b m -> plain_definer t p b = false) ->
+  attr_spec t c p fm = match nearest_any t p m with Some cl => pair_value fm (get_pair p cl) | None => None end.
+Proof. exact attr_nearest_any_no_plain_definer. Qed.
+Print Assumptions attr_nearest_any_class_partial.
+
+(* ... and REFUTED without it for the code as it is: `_get_comp_cls_attr` skips classes without _component_media, so a
+   member defined by a plain mixin is ignored (class M: template = 1; class P(Component): template = 2; class C(M, P):
+   C.template is P's).  Replayed on the real code by corpus/C16/plain-mixin-pair.json, trigger c16-plain-mixin-pair-ignored. *)
+Theorem attr_nearest_any_class_refuted : exists t c p fm m,
+  wf t = true /\ create_error t = None /\ c < length t /\ mro_of t c = Some m /\
+  attr_spec t c p fm <> match nearest_any t p m with Some cl => pair_value fm (get_pair p cl) | None => None end.
+Proof. exact attr_nearest_any_refuted. Qed.
+Print Assumptions attr_nearest_any_class_refuted.
+
 (* Non-vacuity: a diamond (A js=[1], B js=[2], C(A, B) js=[3,1]) is well formed, creatable, its declared lists are mutually consistent
    (all subsequences of [3,1,2]), and the premises of the theorems above hold for it; C gets [3,2,1] (graphlib emits whole ready groups). *)
 Example premises_satisfiable :
@@ -95,3 +149,30 @@ Example both_members_example :
                 Cls [0] true None [] (None, None) (Some 1%N, Some (2%N, 3%N)) (None, None)]
   = Some (1, EImproperlyConfigured).
 Proof. reflexivity. Qed.
+
+(* Non-vacuity of order_consistent_with_duplicates: A js=[1,1,2]; B(A) js=[2,2,3]: wconsistent, result [1,2,3]. *)
+Example duplicates_premises_satisfiable :
+  let t := [Cls [] false None [] (None, None) (None, None) (None, None);
+            Cls [0] false None [] (None, None) (None, None) (None, None);
+            Cls [1] true None [] (None, None) (None, None) (None, None);
+            Cls [2] true (Some (MDecl ExtAll [(0%N, [1; 1; 2]%N)])) [] (None, None) (None, None) (None, None);
+            Cls [3] true (Some (MDecl ExtAll [(0%N, [2; 2; 3]%N)])) [] (None, None) (None, None) (None, None)] in
+  wconsistent (map (declared current_eager t 0%N) (contributors t 4)) /\
+  observe (spec current_flatten current_eager t 0%N 4) = [1; 2; 3]%N.
+Proof.
+  split; [|reflexivity]. exists [1; 2; 3]%N. split.
+  - repeat constructor; cbn; intuition discriminate.
+  - vm_compute. intros l H. repeat (destruct H as [<- | H]; [reflexivity|]). contradiction.
+Qed.
+
+(* Non-vacuity of attr_nearest_any_class_partial: in the diamond of premises_satisfiable no plain class defines `js`. *)
+Example no_plain_definer_satisfiable :
+  let t := [Cls [] false None [] (None, None) (None, None) (None, None);
+            Cls [0] false None [] (None, None) (None, None) (None, None);
+            Cls [1] true None [] (None, None) (None, None) (None, None);
+            Cls [2] true None [] (None, None) (Some 7%N, None) (None, None);
+            Cls [0] false None [] (Some 5%N, None) (None, None) (None, None);
+            Cls [3; 4] true None [] (None, None) (None, None) (None, None)] in
+  mro_of t 5 = Some [5; 3; 2; 1; 4; 0] /\ forallb (fun b => negb (plain_definer t PJs b)) [5; 3; 2; 1; 4; 0] = true /\
+  attr_spec t 5 PJs false = Some 7%N /\ plain_definer t PTpl 4 = true.
+Proof. vm_compute. repeat split. Qed.
